@@ -1539,14 +1539,29 @@ theorem tail_on_pipe_counts_error_and_reads_all (w : Wiring.Follow) (content ext
     (prologue w .regular content.length).errors = 0 := by
   rcases w with ⟨k, r, t⟩
   cases k <;> cases r <;> cases t <;>
-    simp [delivers, prologue, newOn, opens, watchable, seekable, drain]
+    simp [delivers, following, readFails, readable, prologue, newOn, opens, watchable, seekable, drain]
+
+/-- **read_error_ends_the_file** (behaviour of the code, recorded).  The followed path is a directory: `New` and
+    `Drain` succeed, the first `Read` of the descriptor fails with a non-EOF error, which BOTH readers return at
+    once (notify.go / poller.go `if err != nil && err != io.EOF { return n, err }`), also with re-open: one error
+    is counted, nothing is delivered, the file is not followed any more.  In general: a file is being followed
+    iff the prologue started it and it is not a directory; there is never more than one error per file. -/
+theorem read_error_ends_the_file (w : Wiring.Follow) (st : FileState) (content extra : List β) :
+    (following w st content.length = true ↔ (prologue w st content.length).started = true ∧ st ≠ .directory) ∧
+    totalErrors w st content.length ≤ 1 ∧
+    (st = .directory → totalErrors w st content.length = 1 ∧ delivers w st content extra = []) ∧
+    (following w st content.length = false → delivers w st content extra = []) := by
+  rcases w with ⟨k, r, t⟩
+  cases st <;> cases k <;> cases r <;> cases t <;>
+    simp [delivers, following, totalErrors, readFails, readable, prologue, newOn, opens, watchable, seekable, drain]
 
 example : prologue ⟨.notify, true, true⟩ .nodir 0 = ⟨1, false, false, 0⟩ ∧
     prologue ⟨.poll, true, true⟩ .nodir 0 = ⟨0, true, false, 0⟩ ∧
     prologue ⟨.poll, false, true⟩ .fifo 7 = ⟨1, true, true, 0⟩ ∧
     prologue ⟨.poll, false, true⟩ .regular 7 = ⟨0, true, true, 7⟩ ∧
     delivers ⟨.notify, false, true⟩ .fifo [1, 2] [3] = [1, 2, 3] ∧
-    delivers ⟨.notify, false, true⟩ .regular [1, 2] [3] = [3] := by decide
+    delivers ⟨.notify, false, true⟩ .regular [1, 2] [3] = [3] ∧
+    following ⟨.notify, true, false⟩ .directory 2 = false ∧ totalErrors ⟨.poll, true, true⟩ .directory 2 = 1 := by decide
 
 end prologue
 
